@@ -9,6 +9,7 @@ import RexModel.Props.C01
 #print axioms Rex.C01.C01_windows_agree
 #print axioms Rex.C01.C01_window_payloads_are_sender_outputs
 #print axioms Rex.C01.C01_compiled_executor_refines_dataflow
+#print axioms Rex.C01.C01_compiled_executor_refines_dataflow_consec
 #print axioms Rex.C01.C01_accepted_instance_executor_refines
 #print axioms Rex.C01.C01_compiled_executor_agrees_with_any_valid_order
 #print axioms Rex.C01.C01_executor_order_valid
